@@ -275,6 +275,10 @@ pub fn origin_form(u: &url::Url) -> Vec<u8> {
 }
 
 pub fn generate(seed: u64, tier: &str, sink: &mut Sink) {
+    // a request whose first transmission broke in the middle of its body and that is sent again: the connection
+    // that follows a broken one carries the whole request the caller built (multipart forms are the body kind
+    // that has state to get wrong here; seed C07-seed9). The cases are C15's.
+    crate::p_c15::resend_cases(&mut Rng::new(seed ^ 0xC07C15), if tier == "thorough" { 100 } else { 12 }, sink);
     // "each connection": also the connections made while following redirects (every body kind)
     crate::p_c09::generate_chains(seed ^ 0xC07C, if tier == "thorough" { 3000 } else { 300 }, false, false, sink);
     let mut rng = Rng::new(seed ^ 0xC07);
